@@ -12,7 +12,9 @@ Pool(id) == IF id = "a" THEN {"10.0.0.1", "10.0.0.2"} \cup (IF Rich >= 1 THEN {"
             ELSE {"10.1.0.0/24"} \cup (IF Rich >= 1 THEN {"10.2.0.0/16"} ELSE {})
 Maxes == {1234} \cup (IF Rich >= 1 \/ TRUE THEN {5678} ELSE {})
 SetRec(t, mx, ms) == [type |-> t, max |-> mx, members |-> ms]
-SetMenu(id) == { SetRec(TypeOf(id), mx, ms) : mx \in Maxes, ms \in SUBSET Pool(id) }
+SetMenu(id) == IF Rich >= 1 THEN { SetRec(TypeOf(id), mx, ms) : mx \in Maxes, ms \in SUBSET Pool(id) }
+               ELSE { SetRec(TypeOf(id), 1234, {"10.0.0.1"}), SetRec(TypeOf(id), 1234, {"10.0.0.1", "10.0.0.2"}),
+                      SetRec(TypeOf(id), 5678, {"10.0.0.1", "10.0.0.2"}), SetRec(TypeOf(id), 1234, {}) }
 
 \* ---- start kernels ----------------------------------------------------------------------------------
 StaleSets == [n \in {"cali40a", "cali40old", "cali4t0", "cali4t1", "felix-4old", "other", "cali60a"} |->
@@ -24,17 +26,28 @@ StaleSets == [n \in {"cali40a", "cali40old", "cali4t0", "cali4t1", "felix-4old",
                   [] n = "other" -> SetRec("hash:ip", 1234, {"10.0.0.1"})
                   [] n = "cali60a" -> SetRec("hash:ip", 1234, {"10.0.0.2"})]
 StartSets == IF Rich >= 2 THEN SUBSET DOMAIN StaleSets
-             ELSE {{}, {"cali40a", "cali4t0", "other"}, {"cali40old", "cali4t1", "felix-4old", "cali60a"}, DOMAIN StaleSets}
+             ELSE IF Rich >= 1 THEN {{}, {"cali40a", "cali4t0", "other"}, {"cali40old", "cali4t1", "felix-4old", "cali60a"}, DOMAIN StaleSets}
+             ELSE {{}, {"cali40a", "cali4t0", "other"}}
 StartKernels == { [n \in X |-> StaleSets[n]] : X \in StartSets }
 
 \* ---- out-of-band edits ---------------------------------------------------------------------------------
 EditNames == {"cali40a", "cali4t0", "other"} \cup (IF Rich >= 1 THEN {"cali40b", "cali40old"} ELSE {})
 Edits ==
-    { [kind |-> "addm", set |-> n, member |-> m] : n \in EditNames, m \in {"10.0.0.9"} \cup (IF Rich >= 1 THEN {"10.0.0.1"} ELSE {}) }
-    \cup { [kind |-> "delm", set |-> n, member |-> m] : n \in EditNames, m \in {"10.0.0.1"} \cup (IF Rich >= 1 THEN {"10.0.0.2"} ELSE {}) }
+    IF Rich = 0
+      THEN { [kind |-> "addm", set |-> "cali40a", member |-> "10.0.0.9"], [kind |-> "addm", set |-> "cali4t0", member |-> "10.0.0.9"],
+             [kind |-> "delm", set |-> "cali40a", member |-> "10.0.0.1"], [kind |-> "destroy", set |-> "cali40a"],
+             [kind |-> "create", set |-> "cali4t0", s |-> SetRec("hash:ip", 1234, {"10.0.0.8"})],
+             [kind |-> "setmax", set |-> "cali40a", s |-> SetRec("hash:ip", 5678, {})],
+             [kind |-> "addm", set |-> "other", member |-> "10.0.0.9"] }
+      ELSE
+    \* (members are written in the syntax of the set's type: cali40b is a hash:net set)
+    { [kind |-> "addm", set |-> n, member |-> m] : n \in EditNames \ {"cali40b"}, m \in {"10.0.0.9", "10.0.0.1"} }
+    \cup { [kind |-> "addm", set |-> "cali40b", member |-> m] : m \in {"10.9.0.0/16", "10.1.0.0/24"} }
+    \cup { [kind |-> "delm", set |-> n, member |-> m] : n \in EditNames \ {"cali40b"}, m \in {"10.0.0.1", "10.0.0.2"} }
+    \cup { [kind |-> "delm", set |-> "cali40b", member |-> m] : m \in {"10.1.0.0/24", "10.2.0.0/16"} }
     \cup { [kind |-> "destroy", set |-> n] : n \in EditNames }
-    \cup { [kind |-> "create", set |-> n, s |-> SetRec("hash:ip", 1234, {"10.0.0.8"})] : n \in {"cali40a", "cali4t0"} \cup (IF Rich >= 1 THEN {"cali4t1", "cali40old"} ELSE {}) }
-    \cup { [kind |-> "setmax", set |-> n, s |-> SetRec("hash:ip", 5678, {})] : n \in {"cali40a"} \cup (IF Rich >= 1 THEN {"other"} ELSE {}) }
+    \cup { [kind |-> "create", set |-> n, s |-> SetRec("hash:ip", 1234, {"10.0.0.8"})] : n \in {"cali40a", "cali4t0", "cali4t1", "cali40old"} }
+    \cup { [kind |-> "setmax", set |-> n, s |-> SetRec("hash:ip", 5678, {})] : n \in {"cali40a", "other"} }
 
 EditFn(k, R, e) ==
     LET n == e.set IN
